@@ -455,11 +455,13 @@ pub struct WorldCfg {
     pub invalid_pct: u32,
     pub prog: GenCfg,
     pub n_contracts: std::ops::RangeInclusive<usize>,
+    /// when set, specs are drawn from this list only (indices into SPEC_NAMES)
+    pub spec_pool: Option<Vec<u8>>,
 }
 
 impl Default for WorldCfg {
     fn default() -> Self {
-        WorldCfg { include_osaka: false, invalid_pct: 8, prog: GenCfg::default(), n_contracts: 1..=4 }
+        WorldCfg { include_osaka: false, invalid_pct: 8, prog: GenCfg::default(), n_contracts: 1..=4, spec_pool: None }
     }
 }
 
@@ -658,7 +660,11 @@ fn normalise(spec: u8, mut tx: TxSpec, init: Init, keep_foreign_type: bool) -> T
 pub fn world_case(cfg: &WorldCfg) -> BoxedStrategy<WorldCase> {
     let sub = GenCfg { max_stmts: 5, depth: 1, ..cfg.prog.clone() };
     let keep_foreign = if cfg.invalid_pct == 0 { Just(false).boxed() } else { prop::bool::weighted((cfg.invalid_pct as f64 / 300.0).min(0.5)).boxed() };
-    (spec_sel(cfg.include_osaka), accounts(cfg), block_spec(), tx_spec(cfg), init_for_tx(&sub), keep_foreign)
+    let specs = match &cfg.spec_pool {
+        Some(p) => prop::sample::select(p.clone()).boxed(),
+        None => spec_sel(cfg.include_osaka),
+    };
+    (specs, accounts(cfg), block_spec(), tx_spec(cfg), init_for_tx(&sub), keep_foreign)
         .prop_map(|(spec, accounts, block, tx, init, keep)| {
             let tx = normalise(spec, tx, init, keep);
             WorldCase { spec, accounts, block, tx }
